@@ -391,4 +391,90 @@ theorem fts_rep {x y r : ℚ} (hx : Rep x) (hy : Rep y) (hxy : |y| ≤ |x|) (hr 
     rw [add_zero] at hr; rw [hr.zero_iff]; simpa using Rep.zero
   · exact pos x y r hx hy hxy hr hpos
 
+/-! ## Knuth's TwoSum -/
+
+/-- **TwoSum (abstract)**: for all representable `u`, `v` and the six correctly rounded operations of `Math::sum`
+`s = u⊕v`, `u' = s⊖v`, `v'' = s⊖u'`, `du = u'⊖u`, `dv = v''⊖v`, `w = du⊕dv`:
+`w = s − (u + v)` exactly (so `t = −w` is the rounding error of `s`), and every intermediate result is determined. -/
+theorem twoSum_abstract {u v s u' v'' du dv w : ℚ} (hu : Rep u) (hv : Rep v)
+    (h1 : RN (u + v) s) (h2 : RN (s - v) u') (h3 : RN (s - u') v'') (h4 : RN (u' - u) du) (h5 : RN (v'' - v) dv)
+    (h6 : RN (du + dv) w) :
+    w = s - (u + v) ∧ du + dv = s - (u + v) ∧ Rep (u + v - s) ∧
+    v'' = s - u' ∧ du = u' - u ∧ dv = v'' - v := by
+  have hs := h1.rep
+  have hδ : Rep (u + v - s) := err_rep hu hv h1
+  have hδ' : Rep (-(u + v - s)) := hδ.neg
+  by_cases hex : Rep (s - v)
+  · -- the first subtraction is exact
+    have e2 : u' = s - v := hex.rn_eq h2
+    have e3 : v'' = v := by
+      have : s - u' = v := by rw [e2]; ring
+      rw [this] at h3; exact hv.rn_eq h3
+    have e5 : dv = 0 := by
+      rw [e3, sub_self] at h5; exact h5.zero_iff
+    have e4 : du = -(u + v - s) := by
+      have : u' - u = -(u + v - s) := by rw [e2]; ring
+      rw [this] at h4; exact hδ'.rn_eq h4
+    have e6 : w = -(u + v - s) := by
+      rw [e4, e5, add_zero] at h6; exact hδ'.rn_eq h6
+    refine ⟨by rw [e6]; ring, by rw [e4, e5]; ring, hδ, by rw [e3, e2]; ring, by rw [e4, e2]; ring, by rw [e5, e3]; ring⟩
+  · -- otherwise |v| < |u| and the sum is inexact
+    have hvu : |v| < |u| := by
+      by_contra hc
+      exact hex (by
+        have := fts_rep hv hu (not_lt.mp hc) (by rwa [add_comm] at h1)
+        exact this)
+    have hne : ¬ Rep (u + v) := by
+      intro hr
+      apply hex
+      rw [hr.rn_eq h1]; simpa using hu
+    have hv0 : v ≠ 0 := fun e => hne (by rw [e, add_zero]; exact hu)
+    -- |u + v| ≥ |v| (else Sterbenz makes the sum exact)
+    have hge : |v| ≤ |u + v| := by
+      by_contra hc
+      apply hne
+      have hgu : OnGrid (tq v) u := hu.onGrid_tq_of_le hv0 (le_of_lt hvu)
+      exact Rep.of_grid (hgu.add (hv.onGrid_tq hv0)) (tq_ge _)
+        (le_trans (le_of_lt (not_le.mp hc)) (le_of_lt (abs_lt_tq hv0)))
+    -- hence |s| ≥ |v|
+    have hsv : |v| ≤ |s| := by
+      have hvabs : Rep |v| := by
+        rcases abs_cases v with ⟨e, _⟩ | ⟨e, _⟩ <;> rw [e]
+        · exact hv
+        · exact hv.neg
+      rcases le_abs'.mp hge with hneg | hpos
+      · -- u + v ≤ −|v|
+        have := h1.le_of_le_rep hvabs.neg hneg
+        have h0 := abs_nonneg v
+        have e : |s| = -s := abs_of_nonpos (by linarith)
+        rw [e]; linarith
+      · have := h1.ge_of_ge_rep hvabs hpos
+        exact le_trans this (le_abs_self s)
+    -- (i) s − u' is representable (Fast2Sum on s ⊖ v)
+    have hi : Rep (s - u') := by
+      have := fts_rep hs hv.neg (by rwa [abs_neg]) (by rwa [← sub_eq_add_neg])
+      have e : s - u' = -(u' - s) := by ring
+      rw [e]; exact this.neg
+    -- (ii) u' − u is representable (Fast2Sum on u ⊖ δ, the same real number as s − v)
+    have hii : Rep (u' - u) := by
+      have hδu : |-(u + v - s)| ≤ |u| := by
+        have := h1.nearest hv
+        rw [show v - (u + v) = -u by ring, abs_neg] at this
+        rw [abs_neg, abs_sub_comm]; exact this
+      exact fts_rep hu hδ' hδu (by
+        have : u + -(u + v - s) = s - v := by ring
+        rwa [this])
+    have e3 : v'' = s - u' := hi.rn_eq h3
+    have e4 : du = u' - u := hii.rn_eq h4
+    -- v'' − v = (s − v) − u' is the error of the second operation
+    have hv2 : Rep (v'' - v) := by
+      have := err_rep hs hv.neg (by rwa [← sub_eq_add_neg])
+      have e : v'' - v = s + -v - u' := by rw [e3]; ring
+      rw [e]; exact this
+    have e5 : dv = v'' - v := hv2.rn_eq h5
+    have esum : du + dv = -(u + v - s) := by rw [e4, e5, e3]; ring
+    have e6 : w = -(u + v - s) := by
+      rw [esum] at h6; exact hδ'.rn_eq h6
+    exact ⟨by rw [e6]; ring, by rw [esum]; ring, hδ, e3, e4, e5⟩
+
 end GeoVerif
